@@ -609,7 +609,7 @@ PROPERTIES = {
                    leanchecker=["Ysgo.Props.C02"]),
     "C03": runprop("vars", ("res", "v"), ("text",), 1500, 60000, nontrivial=lambda obs, case: sum(1 for o in obs if obs_kind(o) == "HSET") >= 1 and len({parse_run(o)["v"] for o in obs}) >= 3,
                    rule="run/vars: set/declare statements with every assignment operator over every pair of (current type or unset, assigned type), interleaved with host writes of same and other types; compared: result class and the complete variable contents after every operation; non-trivial = a host write and at least 3 distinct store contents",
-                   leanchecker=["Ysgo.Props.C03"]),
+                   leanchecker=["Ysgo.Props.C03", "Ysgo.Props.C03Facts"]),
     "C04": runprop("lines", ("res",), ("text", "tags", "dis"), 1500, 60000, nontrivial=lambda obs, case: any(obs_kind(o) == "O" for o in obs) or sum(1 for o in obs if obs_kind(o) == "L") >= 3,
                    extra_streams=[{"stream": "linelex", "profile": "all", "quick": 6000, "thorough": 150000, "nontrivial": lambda obs, case: not obs[0].startswith(("LOADERR", "ERR"))},
                                   {"stream": "f64", "profile": "fmt", "quick": 9000, "thorough": 600000, "nontrivial": lambda obs, case: True}],
